@@ -25,7 +25,8 @@ RULE = ("(a) `nm` over the freshly compiled C library objects (blake3.c with and
         "each thread's result line must equal the sequential model result of the same sub-case.  Every fourth case all "
         "threads race the very first detection on the same short input; the C builds add 160 (asm) + 40 (intrinsics) "
         "fresh processes (thorough 600 + 200) whose 4/8/16 threads all hash one large input with thread starts staggered by "
-        "0..50 us (first-detection race against threads already inside compress_subtree_wide).  (c) get_cpu_features is "
+        "0..50 us (first-detection race against threads already inside compress_subtree_wide), and an initialiser hammer "
+        "(4-8 threads, each re-running its own derive-key / keyed initialiser 20 000 times: all digests equal).  (c) get_cpu_features is "
         "TRANSLATED (tools/gen_coq.py gen_dispatch -> gen/GenDispatch.v) and the theorems C18_c_cache_* show that every "
         "store to g_cpu_features is the complete returned value.  Thorough: the C side under TSan.  Non-trivial "
         "= distinct THR case with at least two different sub-cases or a first-detection race.")
@@ -277,7 +278,7 @@ def run_threads(ctx, drv, label, binary, pool, cases, env, strip=(), profile="de
                 if kern.BADTOK.search(" ".join(toks)) or "diff" in toks or \
                         not verif.compare_line(mr.get("m%d" % i, "MISSING"), " ".join(toks), profile):
                     ok = False
-        if len(set(subs)) >= 2 or subs[0] >= len(pool) - 11:
+        if len(set(subs)) >= 2 or subs[0] >= len(pool) - 17:
             ctx.nontrivial.add("%s %d %s" % (label.split("/")[0], n, ",".join(map(str, subs))))
         if not ok:
             nfail += 1
@@ -360,6 +361,24 @@ def correspondence(ctx):
                 env2["C_THR_STAGGER_NS"] = str(st)
                 run_threads(ctx, drv, "%s/first-detection-race/stagger%d" % (label, st), cb, cpool, rcases, env2,
                             strip=("ok", "same"), errs=errs)
+        # initialiser hammer: every thread re-runs ITS OWN initialiser (different derive-key contexts / keys per
+        # thread) tens of thousands of times and hashes "abc"; all of a thread's digests must be equal and equal to
+        # the model's.  A cache of "the last context" shared between threads shows up as `diff` / a wrong digest.
+        if not san:
+            hammer = []
+            n_it = 60000 if thorough else 20000
+            for t in range(6):
+                ctxb = ("ctx %d for the initialiser hammer" % t).encode()
+                spec = "hex/" + ctxb.hex()
+                mode_c, mode_m = (("deriveraw=" + spec, "derive=" + spec) if t % 3 != 2 else
+                                  ("keyed=prng/%d/32" % (77 + t), "keyed=prng/%d/32" % (77 + t)))
+                cpool.append(("CH %s detect ri:%d u:0:hex/616263 f:0:32" % (mode_c, n_it),
+                              "H %s detect u:0:hex/616263 x:0:32" % mode_m))
+                hammer.append(len(cpool) - 1)
+            hcases = [(n, [hammer[(j + i) % len(hammer)] for i in range(n)]) for j, n in
+                      enumerate([4, 6, 8, 4, 6, 8] * (3 if thorough else 1))]
+            run_threads(ctx, drv, "%s/initialiser-hammer" % label, cb, cpool, hcases, {"C_GUARD": "0"},
+                        strip=("ok", "same"), errs=errs)
         for ids, text in errs:
             ctx.failures.append({"correspondence": "sanitizer/stderr report", "case": "THR case " + ",".join(ids),
                                  "model": "", "impl": text[:1500], "build": label})
